@@ -890,7 +890,13 @@ pub fn drive(seed: u64, episodes: usize, steps: usize, max_ref: usize, num_slots
                 emit(out, &ep, ev);
             }
         }
-        random_steps(&mut w, &mut rng, steps, uid_pool, &mut lab, &ep, out);
+        // the driver itself walks the DOMs to choose arguments; on a DOM that a defect has already corrupted (the
+        // logged state shows it) those walks may panic: the episode ends there, with an event no action explains
+        let stepped = catch_unwind(AssertUnwindSafe(|| random_steps(&mut w, &mut rng, steps, uid_pool, &mut lab, &ep, out)));
+        if stepped.is_err() {
+            unwatch();
+            emit(out, &ep, json!({"op": "driver_panic"}));
+        }
 
     }
 }
